@@ -249,6 +249,9 @@ def step (st : DState) (line : String) : DState × String :=
       -- hypotheses of KV.C08.simops_map_accepted on the loaded netlist and the given (real) topological order
       let o := parseNats order
       (st, s!"wf={st.net.wfB} order={orderOKB st.net o} forks={strip != "1" || forksOKB st.net o} reads={readsDrivenB Gen.kindPrefixes st.net o}")
+  | ["netarity"] =>
+      -- domain predicate `Net.arityOKB` (audit finding 1 / known finding D33) on the loaded netlist
+      (st, s!"arity={st.net.arityOKB}")
   | ["netspeccert", order] =>
       -- hypotheses of KV.C02.sim8_netlist_all_circuits / oracle_labelling_is_simulation on the loaded netlist and order
       let o := parseNats order
